@@ -37,7 +37,7 @@ def main():
     sd = os.path.join(wt, "_seed", n)
     dst = os.path.join(VERIF, "seeded", sid)
     os.makedirs(dst, exist_ok=True)
-    for f in ("patch.diff", "demo.c", "build.sh", "notes.md"):
+    for f in ("patch.diff", "demo.c", "demo.cpp", "demo.sh", "build.sh", "notes.md"):
         if os.path.exists(os.path.join(sd, f)):
             shutil.copy(os.path.join(sd, f), dst)
     meta = {"seed_id": sid, "property": prop, "source": "independent sub-agent given only the property text",
